@@ -72,7 +72,7 @@ def run(ctx):
         good, _canon = c01.run_generated(ctx, npk, nprog, ctx2_stats, save=False)
         good = [x for x in good if x[0] is not _canon]
         stats.update(ctx2_stats)
-    good = [x for x in good if x[0].p.name != "oob_canon"]
+    good = [x for x in good if x[0].p.name not in ("oob_canon", "dead_canon")]
     pairs, meta = [], []
     for g, od, orr in good:
         if isinstance(od[0], tuple) or isinstance(orr[0], tuple): continue
